@@ -650,6 +650,64 @@ def combinator_programs():
     return out
 
 
+def retain_programs():
+    """every builtin that calls back into lisp, with a callback that KEEPS what it was given - its &rest list, or a
+    closure over it - in an outer accumulator (or returns it); after the builtin has returned, every call's own arguments
+    must still be there: the argument list of one call is not the next call's"""
+    L = lambda formals, *body: [S("lambda"), list(formals)] + list(body)
+    out = []
+    hofs = [  # (name, call template with CB, what the callback returns given `all` = the list of its arguments)
+        ("map", lambda cb: [S("map"), Q(S("list")), cb, Q([1, 2, 3])], lambda al: al),
+        ("map-vector", lambda cb: [S("map"), Q(S("vector")), cb, [S("vector"), 4, 5, 6]], lambda al: al),
+        ("foldl", lambda cb: [S("foldl"), cb, 0, Q([1, 2, 3])], lambda al: [S("+"), 1, [S("car"), al]]),
+        ("foldr", lambda cb: [S("foldr"), cb, 0, Q([1, 2, 3])], lambda al: [S("+"), 1, [S("car"), [S("cdr"), al]]]),
+        ("select", lambda cb: [S("select"), Q(S("list")), cb, Q([1, 2, 3])], lambda al: S("true")),
+        ("reject", lambda cb: [S("reject"), Q(S("list")), cb, Q([1, 2, 3])], lambda al: []),
+        ("any", lambda cb: [S("any?"), cb, Q([1, 2, 3])], lambda al: []),
+        ("all", lambda cb: [S("all?"), cb, Q([1, 2, 3])], lambda al: S("true")),
+        ("sort", lambda cb: [S("stable-sort"), cb, [S("list"), 3, 1, 2]], lambda al: [S("<"), [S("car"), al], [S("car"), [S("cdr"), al]]]),
+        ("sort-key", lambda cb: [S("stable-sort"), S("<"), [S("list"), 3, 1, 2], cb], lambda al: [S("car"), al]),
+        ("insert-sorted", lambda cb: [S("insert-sorted"), Q(S("list")), Q([1, 3, 5, 7]), cb, 4], lambda al: [S("<"), [S("car"), al], [S("car"), [S("cdr"), al]]]),
+        ("search-sorted", lambda cb: [S("search-sorted"), 6, cb], lambda al: [S(">="), [S("car"), al], 4]),
+        ("funcall", lambda cb: [S("list"), [S("funcall"), cb, 1, 2], [S("funcall"), cb, 3], [S("funcall"), cb, 4, 5, 6]], lambda al: [S("length"), al]),
+        ("apply", lambda cb: [S("list"), [S("apply"), cb, 1, Q([2, 3])], [S("apply"), cb, Q([4])], [S("apply"), cb, 5, 6, Q([])]], lambda al: [S("length"), al]),
+        ("unpack", lambda cb: [S("list"), [S("unpack"), cb, Q([1, 2])], [S("unpack"), cb, Q([3])]], lambda al: [S("length"), al]),
+        ("compose", lambda cb: [S("let"), [[S("h"), [S("compose"), S("identity"), cb]]], [S("list"), [S("funcall"), S("h"), 1, 2], [S("funcall"), S("h"), 3]]], lambda al: [S("length"), al]),
+        ("flip", lambda cb: [S("let"), [[S("h"), [S("flip"), cb]]], [S("list"), [S("funcall"), S("h"), 1, 2], [S("funcall"), S("h"), 3, 4]]], lambda al: [S("length"), al]),
+        ("curry", lambda cb: [S("let"), [[S("h"), [S("curry-function"), cb, 9]]], [S("list"), [S("funcall"), S("h"), 1], [S("funcall"), S("h"), 2, 3]]], lambda al: [S("length"), al]),
+        ("thread", lambda cb: [S("list"), [S("thread-first"), 1, [S("funcall"), cb, 2]], [S("thread-last"), 3, [S("funcall"), cb, 4]]], lambda al: [S("length"), al]),
+        ("handler", lambda cb: [S("list"), [S("handler-bind"), [[S("c1"), cb]], [S("error"), Q(S("c1")), 1, 2]], [S("handler-bind"), [[S("c2"), cb]], [S("error"), Q(S("c2")), 3]]], lambda al: [S("length"), al]),
+        ("direct", lambda cb: [S("list"), [cb, 1, 2], [cb, 3], [cb]], lambda al: [S("length"), al]),
+        ("nested-map", lambda cb: [S("map"), Q(S("list")), L([S("row")], [S("map"), Q(S("list")), cb, S("row")]), Q([[1, 2], [3]])], lambda al: al),
+    ]
+    shapes = [("rest", [S("&rest"), S("xs")], S("xs"), S("xs")),
+              ("req-rest", [S("x"), S("&rest"), S("xs")], [S("cons"), S("x"), S("xs")], S("xs")),
+              ("opt-rest", [S("&optional"), S("x"), S("&rest"), S("xs")], [S("cons"), S("x"), S("xs")], S("xs"))]
+    for hname, call, ret in hofs:
+        for sname, formals, al, kept in shapes:
+            if hname == "direct" and sname == "req-rest":
+                continue
+            for mode in ("value", "list", "closure"):
+                if mode == "value":
+                    body = [ret(al) if hname in ("map", "map-vector", "nested-map") else [S("progn"), [S("set!"), S("acc"), [S("cons"), kept, S("acc")]], ret(al)]]
+                    if hname not in ("map", "map-vector", "nested-map"):
+                        continue
+                    body = [kept if sname == "rest" else [S("list"), S("x"), kept]]
+                elif mode == "list":
+                    body = [[S("set!"), S("acc"), [S("cons"), kept, S("acc")]], ret(al)]
+                else:
+                    body = [[S("set!"), S("acc"), [S("cons"), L([], kept), S("acc")]], ret(al)]
+                cb = L(formals, *body)
+                forms = [[S("set"), Q(S("acc")), []],
+                         [S("probe"), Q(S("result")), GUARD(call(cb))]]
+                if mode == "closure":
+                    forms.append([S("probe"), Q(S("kept")), GUARD([S("map"), Q(S("list")), L([S("f")], [S("funcall"), S("f")]), S("acc")])])
+                else:
+                    forms.append([S("probe"), Q(S("kept")), S("acc")])
+                out.append(forms)
+    return out
+
+
 def run(tier):
     V = Verdict("C01", tier)
     work = Work("C01")
@@ -685,6 +743,8 @@ def _run(V, work, tier):
         progs_.append(("opshape", f))
     for f in combinator_programs():
         progs_.append(("combinator", f))
+    for f in retain_programs():
+        progs_.append(("retain", f))
     # the MIX family: every feature in one program (gen/mix.py)
     import mix
     for _ in range(1500 if thorough else 130):
